@@ -149,14 +149,21 @@ pub fn run_client(client_bin: &str, v: Proto, key: Option<String>, nreq: usize, 
     for e in extra { cmd.arg(e); }
     cmd.env("RUST_BACKTRACE", "0").stdin(Stdio::null()).stdout(Stdio::piped()).stderr(Stdio::piped());
     let mut child = cmd.spawn().expect("spawn client");
-    sock.set_read_timeout(Some(Duration::from_millis(3000))).unwrap();
+    // wait for the client's requests: up to 3 s, but not longer than the client process lives (a client that exits at
+    // once - bad arguments, a panic - must not cost the full wait for each of a thousand runs)
+    sock.set_read_timeout(Some(Duration::from_millis(50))).unwrap();
     let mut requests = Vec::new();
     let mut buf = vec![0u8; 4096];
     let mut peers = Vec::new();
-    for _ in 0..nreq {
+    let t_wait = std::time::Instant::now();
+    let mut exited_seen = false;
+    while requests.len() < nreq && t_wait.elapsed() < Duration::from_millis(3000) {
         match sock.recv_from(&mut buf) {
             Ok((n, from)) => { requests.push(buf[..n].to_vec()); peers.push(from); }
-            Err(_) => break,
+            Err(_) => {
+                if exited_seen { break; }
+                if matches!(child.try_wait(), Ok(Some(_))) { exited_seen = true; }   // one more look at the socket, then give up
+            }
         }
     }
     // the client reads the replies in the order it created its sockets = the order the requests arrived
@@ -570,12 +577,17 @@ fn run_client_relay(client_bin: &str, v: Proto, key: Option<String>, nreq: usize
     if let Some(k) = &key { cmd.arg("-k").arg(k); }
     cmd.env("RUST_BACKTRACE", "0").stdin(Stdio::null()).stdout(Stdio::piped()).stderr(Stdio::piped());
     let mut child = cmd.spawn().expect("spawn client");
-    sock.set_read_timeout(Some(Duration::from_millis(3000))).unwrap();
+    sock.set_read_timeout(Some(Duration::from_millis(50))).unwrap();
     let mut requests = Vec::new();
     let mut peers = Vec::new();
     let mut buf = vec![0u8; 4096];
-    for _ in 0..nreq {
-        match sock.recv_from(&mut buf) { Ok((n, from)) => { requests.push(buf[..n].to_vec()); peers.push(from); forward(&buf[..n]); } Err(_) => break }
+    let t_wait = std::time::Instant::now();
+    let mut exited_seen = false;
+    while requests.len() < nreq && t_wait.elapsed() < Duration::from_millis(3000) {
+        match sock.recv_from(&mut buf) {
+            Ok((n, from)) => { requests.push(buf[..n].to_vec()); peers.push(from); forward(&buf[..n]); }
+            Err(_) => { if exited_seen { break; } if matches!(child.try_wait(), Ok(Some(_))) { exited_seen = true; } }
+        }
     }
     for (k, from) in peers.iter().enumerate() { if let Some(d) = fetch(k) { let _ = sock.send_to(&d, from); } }
     // a large run prints much: drain the pipes while waiting
